@@ -16,8 +16,7 @@ import time
 from harness import vlib
 from harness.props import c20_gen, c20_oracle
 
-KF_KINDS = ("recursive-class", "self-type", "slots-descriptor-default", "field-strategy-unannotated",
-            "field-override-container", "nt-mutable-default", "defs-bare-name-clash", "generic-typevar-leak")
+KF_KINDS = ("recursive-class", "self-type", "nt-mutable-default", "defs-bare-name-clash", "generic-typevar-leak")
 
 
 def _replay_of(case: dict, res: dict) -> dict:
